@@ -169,38 +169,62 @@ theorem good_reorgTail {p3 : Pool} (h : Good Φ p3) (hpq : Φ.PQ) (pn : AMap Nat
   exact (good_truncateQueue (good_truncatePending h') hpq q0 hq0).frame rfl rfl rfl
 
 theorem runReorg_some (p : Pool) (c' : Chain) (dirty : List Nat) :
-    p.runReorg (some c') dirty =
-      ({ ((p.resetHead c').promoteExecutables ((p.resetHead c').queue.map (·.1))).demoteUnexecutables with
-          pnonce := ((p.resetHead c').promoteExecutables ((p.resetHead c').queue.map (·.1))).demoteUnexecutables.pending.map
-            (fun (e : Nat × TxList) => (e.1, ((e.2.txs.getLast?).map (fun (t : Tx) => t.nonce + 1)).getD 0)) }
+    p.runReorg (some c') dirty = reorgAfterReset (p.resetHead c') := rfl
+
+theorem resetReinject_nil (p : Pool) (c' : Chain) : p.resetReinject c' [] = p.reset c' := by
+  simp [resetReinject, addBatch, reset, runReorg_some]
+
+/-- the pool after promotion for every queued account and demotion, as it appears in
+`reorgAfterReset` -/
+def afterDemote (p1 : Pool) : Pool :=
+  (p1.promoteExecutables (p1.queue.map (·.1))).demoteUnexecutables
+
+theorem reorgAfterReset_eq (p1 : Pool) :
+    reorgAfterReset p1 =
+      ({ (afterDemote p1) with pnonce := (afterDemote p1).pending.map (fun (e : Nat × TxList) => (e.1, ((e.2.txs.getLast?).map (fun (t : Tx) => t.nonce + 1)).getD 0)) }
         : Pool).truncatePending.truncateQueue.map (fun (q : Pool) => { q with changes := 0 }) := rfl
 
-/-- **the reorg run with a reset re-establishes the strong invariant for the new head** -/
-theorem good_runReorg_reset {p : Pool} (h : Good (strongPhi c) p) (c' : Chain) (dirty : List Nat) :
-    ∀ q ∈ p.runReorg (some c') dirty, Good (strongPhi c') q := by
-  have h1 := good_resetHead h c'
+/-- promotion + demotion after a head change re-establish the strong invariant for the new view -/
+theorem good_afterDemote {c' : Chain} {p1 : Pool} (h1 : Good (weakPhi c') p1) :
+    Good (strongPhi c') (afterDemote p1) := by
+  unfold afterDemote
   -- promotion over every queued account: queued nonces are fresh for the new head
-  obtain ⟨h2, h2a, h2b⟩ := promoteExecutables_spec h1 ((p.resetHead c').queue.map (·.1))
-  have h2mid : Good (midPhi c') ((p.resetHead c').promoteExecutables ((p.resetHead c').queue.map (·.1))) := by
+  obtain ⟨h2, h2a, h2b⟩ := promoteExecutables_spec h1 (p1.queue.map (·.1))
+  have h2mid : Good (midPhi c') (p1.promoteExecutables (p1.queue.map (·.1))) := by
     refine ⟨h2.chain, h2.pkeys, h2.qkeys, h2.pend, ?_⟩
     intro a l hl
     have hw := h2.que a l hl
     refine ⟨hw.1, fun t ht => ⟨hw.2 t ht, ?_⟩⟩
-    by_cases ha : a ∈ (p.resetHead c').queue.map (·.1)
+    by_cases ha : a ∈ p1.queue.map (·.1)
     · exact h2b a ha l hl t ht
     · have hl' := hl
       rw [h2a a ha] at hl'
       exact absurd (amGet_some_key _ _ _ hl') ha
   -- demotion: pending lists are fresh and payable for the new head
   obtain ⟨h3, h3a⟩ := demoteUnexecutables_spec h2mid
-  have h3strong : Good (strongPhi c')
-      ((p.resetHead c').promoteExecutables ((p.resetHead c').queue.map (·.1))).demoteUnexecutables := by
-    refine ⟨h3.chain, h3.pkeys, h3.qkeys, ?_, h3.que⟩
-    intro a l hl
-    have hw := h3.pend a l hl
-    exact ⟨hw.1, fun t ht => ⟨hw.2 t ht, h3a a l hl t ht⟩⟩
+  refine ⟨h3.chain, h3.pkeys, h3.qkeys, ?_, h3.que⟩
+  intro a l hl
+  have hw := h3.pend a l hl
+  exact ⟨hw.1, fun t ht => ⟨hw.2 t ht, h3a a l hl t ht⟩⟩
+
+theorem good_reorgAfterReset {c' : Chain} {p1 : Pool} (h1 : Good (weakPhi c') p1) :
+    ∀ q ∈ reorgAfterReset p1, Good (strongPhi c') q := by
+  rw [reorgAfterReset_eq]
+  exact good_reorgTail (good_afterDemote h1) (strongPhi_PQ c') _
+
+/-- **the reorg run with a reset re-establishes the strong invariant for the new head** -/
+theorem good_runReorg_reset {p : Pool} (h : Good (strongPhi c) p) (c' : Chain) (dirty : List Nat) :
+    ∀ q ∈ p.runReorg (some c') dirty, Good (strongPhi c') q := by
   rw [runReorg_some]
-  exact good_reorgTail h3strong (strongPhi_PQ c') _
+  exact good_reorgAfterReset (good_resetHead h c')
+
+/-- the same with re-injection of a dropped branch -/
+theorem good_resetReinject {p : Pool} (h : Good (strongPhi c) p) (c' : Chain) (reinject : List Tx) :
+    ∀ q ∈ p.resetReinject c' reinject, Good (strongPhi c') q := by
+  intro q hq
+  simp only [resetReinject, List.mem_flatMap] at hq
+  obtain ⟨r, hr, hq⟩ := hq
+  exact good_reorgAfterReset (good_addBatch reinject (good_resetHead h c') (weakPhi_PQ c') false r hr) q hq
 
 end Pool
 end KV.TxPool
